@@ -3,6 +3,7 @@ import LanceModel.C25.MapRangeLemmas
 import LanceModel.C25.SchedLemmas
 import LanceModel.C25.RepIndexLemmas
 import LanceModel.C25.EndToEnd
+import LanceModel.C25.Spanning
 /-!
 # C25 — property theorems
 
@@ -590,6 +591,30 @@ example : scheduleInstructions (decodeRepIndex [(1, 2), (3, 0)] false 0) [⟨0, 
     = some [⟨0, .absent, 0, 2, true⟩, ⟨1, .take, 0, 0, false⟩, ⟨1, .skip, 1, 1, false⟩] := by rfl
 example : buildRepIndex [[(⟨true, true, 1⟩ : Ent Nat), ⟨false, true, 2⟩, ⟨true, true, 3⟩], exPre ++ exRows.flatten]
     = [(1, 1), (4, 0)] := by rfl
+
+/-! ## rows that span chunk boundaries (`Spanning.lean`)
+
+`schedLoop_flat`: the loop of `schedule_instructions` with all its branches (`need_preamble`, `take_trailer`, chunks
+that are entirely preamble), for any number of chunks a row may span: the scheduled instructions, executed on their
+chunks the way `decode` executes them (`decode_instr`, from `map_range_select`), copy exactly the level stream up to
+its `need`-th row start.  `drainFromInstruction_handover`: draining a whole instruction reproduces its own preamble
+action and hands `take_trailer` on as `need_preamble`. -/
+
+/-- two chunks `[1 2 | 2' 3]`: row `2` spans the boundary -/
+def exSpan : List (PC Nat) :=
+  [⟨[], [[⟨true, true, 1⟩], [⟨true, true, 2⟩]]⟩, ⟨[⟨false, true, 20⟩], [[⟨true, true, 3⟩]]⟩]
+
+example : ∀ c ∈ exSpan, c.WF := by
+  intro c hc
+  simp only [exSpan, List.mem_cons, List.not_mem_nil, or_false] at hc
+  rcases hc with rfl | rfl
+  · exact ⟨by unfold NoStart; decide, fun r hr => by
+      simp at hr; rcases hr with rfl | rfl <;> exact ⟨_, _, rfl, rfl, by unfold NoStart; decide⟩⟩
+  · exact ⟨by unfold NoStart; decide, fun r hr => by
+      simp at hr; subst hr; exact ⟨_, _, rfl, rfl, by unfold NoStart; decide⟩⟩
+example : schedLoop (pcBlocks exSpan 0) 0 1 false 1 = [⟨0, .absent, 1, 1, true⟩, ⟨1, .take, 0, 0, false⟩] := by rfl
+example : (schedLoop (pcBlocks exSpan 0) 0 1 false 1).flatMap (execI exSpan 0)
+    = [⟨true, true, 2⟩, ⟨false, true, 20⟩] := by rfl
 
 /-! ## end to end inside a mini-block page (`EndToEnd.lean`)
 
